@@ -202,6 +202,8 @@ def C08():
                      symbolic=["colour"], functions=["codec::rle::rle_16_decompress"], timeout=900, mem_gb=8))
     jobs.append(Kani("c08_rle16_run8_narrow", "rle_16_decompress: a run of 8 on a 4-pixel-wide image (the 8-way unrolled loop must not be entered, its guard must not underflow)", bounds={"image": "4x2"}, symbolic=["colour"],
                      functions=["codec::rle::rle_16_decompress"], timeout=900, mem_gb=8))
+    jobs.append(Kani("c08_rle16_extended_count_ff", "rle_16_decompress: extended run counts with count byte 0xFF (FGBG_IMAGE 0x40, SET_FG_FGBG_IMAGE 0xD0: 256 pixels; BG_RUN: 287; SET_FG_FG_RUN: 271) on a 2x2 image with symbolic masks/colours: refused, never a panic", bounds={"image": "2x2"}, symbolic=["masks", "foreground"],
+                     functions=["codec::rle::rle_16_decompress"], timeout=900, mem_gb=8))
     jobs.append(Kani("c08_rle16_mega_dithered_max", "rle_16_decompress: MEGA_MEGA DITHERED_RUN with pair count 0xFFFF on a 2x2 image is refused without panic", bounds={"image": "2x2"}, symbolic=["colours"],
                      functions=["codec::rle::rle_16_decompress"], timeout=900, mem_gb=8))
     jobs.append(Kani("c08_rle16_color_run_partial", "rle_16_decompress: COLOR_RUN of 3 on a 2x2 image paints exactly three pixels in decode order", bounds={"image": "2x2"}, symbolic=["colour"],
@@ -257,6 +259,7 @@ def C09():
             ("c09_rle16_set_fg_fgbg_exact", "SET_FG_FGBG_IMAGE on a later scanline, symbolic mask and foreground", False),
             ("c09_rle16_pair_setfg_exact", "DITHERED_RUN colours and SET_FG_FG_RUN foreground carried exactly (first scanline)", False),
             ("c09_rle16_bg_bg_cross_line", "two consecutive BG_RUNs, the second crossing a scanline end: the foreground pixel is inserted exactly once", True),
+            ("c09_rle16_bg_bg_first_line_end", "two consecutive BG_RUNs where the first ends the first scanline exactly at its end: no foreground pixel is inserted (and the same split inside the scanline inserts one)", True),
             ("c09_rle16_mega_fgbg", "MEGA_MEGA FGBG_IMAGE: the 16-bit count is a pixel count (not multiplied by 8), symbolic mask", True),
             ("c09_rle16_mega_set_fg_fgbg", "MEGA_MEGA SET_FG_FGBG_IMAGE: pixel count, symbolic mask and foreground", False),
             ("c09_rle16_mega_bg_fg_image", "MEGA_MEGA BG_RUN, FG_RUN and COLOR_IMAGE on the first scanline", False),
@@ -283,6 +286,8 @@ def C01():
                    mirjobs.unwrap_order)]
     jobs.append(MirJob("c01_mir_strict_der", "read_ts_server_challenge / read_ts_validate parse the server's TSRequest through the strict DER entry point (yasna::parse_der) and never through a BER one: a re-encoded (non-minimal, indefinite or segmented) last-round reply is a parse error",
                        mirjobs.strict_der))
+    jobs.append(MirJob("c01_mir_signature_layout", "the signature of the sealed last-round reply: version word checked against 1 on read, checksum 8 bytes, SeqNum little endian - every bit of the server's token is either compared or authenticated",
+                       mirjobs.signature_layout))
     return Prop("C01", [], jobs,
                 assumptions=["E2 admits every branch outcome (over-approximation): sound for must-precede claims",
                              "the arithmetic of num-bigint (from_bytes_le, +, !=) is trusted: a Kani harness on the extracted condition (lowering L5, kept in vrun.py) ran CBMC out of 12 GB even for 1-byte operands (Vec<u32> digit vectors of symbolic length)"],
@@ -493,6 +498,8 @@ def C04():
                                      mirjobs.fn_asserts(r"^client_core_data$", "client name length", loop_bound=0), mirjobs.core_data_units)))
     jobs.append(MirJob("c04_mir_tpkt_write", "tpkt::Client::write: the u16 handed to tpkt_header equals Message::length() and length()+4 fits 16 bits on every path that sends (else the message is refused and nothing is written): the TPKT length field never wraps",
                        mirjobs.tpkt_write))
+    jobs.append(MirJob("c04_mir_ts_credentials_shape", "create_ts_credentials: on every path TSPasswordCreds carries [0] domainName, [1] userName, [2] password and TSCredentials [0] credType, [1] credentials, whatever the values are (empty password, restricted admin); confirmed against a hand-written DER reference",
+                       mirjobs.ts_credentials_shape))
     return Prop("C04", [("core/per.rs", "per.rs"), ("core/tpkt.rs", "tpkt.rs"), ("core/x224.rs", "x224.rs"), ("core/mcs.rs", "mcs.rs"), ("core/gcc.rs", "gcc.rs"), ("core/global.rs", "global.rs")], jobs, lowerings=["L2"],
                 assumptions=[S1, S6, DEV, "L2 light error payloads", "the strict parser is the set of relations asserted in the harness (written from MS-RDPBCGR / T.125 / X.224), applied to the bytes the real Message::write produced"], stubs=[S1],
                 text="Byte-exact well-formedness of every emitter that is one component/trame deep, for all values of its numeric fields and symbolic payload bytes: each length/count field equals what it describes, fixed fields have their size and offset, the client name is 32 bytes NUL terminated for arbitrary Unicode scalars.",
